@@ -26,6 +26,8 @@ macro_rules! dispatch {
             "C07" => $f(&props::builder::C07 $(, $arg)*),
             "C09" => $f(&props::builder2::C09 $(, $arg)*),
             "C10" => $f(&props::builder2::C10 $(, $arg)*),
+            "C13" => $f(&props::c13::C13 $(, $arg)*),
+            "C16" => $f(&props::c16::C16 $(, $arg)*),
             "C18" => $f(&props::builder2::C18 $(, $arg)*),
             "C19" => $f(&props::builder2::C19 $(, $arg)*),
             "C20" => $f(&props::builder2::C20 $(, $arg)*),
